@@ -5,6 +5,7 @@ import (
 	"encoding/binary"
 	"encoding/hex"
 	"fmt"
+	"math"
 	"reflect"
 	"sort"
 	"strings"
@@ -323,6 +324,12 @@ func (e EncSpec) Encoder() encode.Encoder {
 			panic(err)
 		}
 		return te
+	case "TypeF64":
+		te, err := encode.NewTypeEncoder(float64(0))
+		if err != nil {
+			panic(err)
+		}
+		return te
 	}
 	panic("unknown encoder " + e.Name)
 }
@@ -502,6 +509,18 @@ func (e EncSpec) Values(ids []int) interface{} {
 		r := make([]idT, n)
 		for i, x := range ids {
 			r[i] = idT(int64(x)*0x0102030405060708 - (1 << 40))
+		}
+		return r
+	case "TypeF64":
+		// floating-point values: equal by == does not mean equal encodings
+		// (+0 and -0), and values are compared by their bit patterns
+		tab := []float64{1, 0, math.Copysign(0, -1), -1, math.SmallestNonzeroFloat64, math.MaxFloat64, math.Inf(1), math.Inf(-1), 0.1, 1e100}
+		r := make([]float64, n)
+		for i, x := range ids {
+			r[i] = tab[((x%len(tab))+len(tab))%len(tab)]
+			if x >= len(tab) {
+				r[i] = float64(x) + 0.5
+			}
 		}
 		return r
 	case "Type":
@@ -719,6 +738,11 @@ func (b *Built) Match(i int, got interface{}) bool {
 	}
 	if b.AllEmpty && got == nil {
 		return true
+	}
+	if f, ok := got.(float64); ok {
+		if w, ok := b.Decoded[i].(float64); ok {
+			return math.Float64bits(f) == math.Float64bits(w)
+		}
 	}
 	return reflect.DeepEqual(got, b.Decoded[i])
 }
